@@ -1,14 +1,19 @@
 #!/usr/bin/env bash
 # Runs seedtest.sh for every seeded change of the properties covered by the step-level oracles.
 # Output: target/seedtest/results.txt (one line per seed x oracle x profile).
+#   ./seedall.sh            the 40 changes of rounds 1 and 2 (table of ORACLES.md section 5)
+#   ./seedall.sh R4_        only the lines matching the regular expression
+#   TABLE_SEL=r34 ./seedall.sh  the round 3 / round 4 changes of C13..C17 (incl. the wire-format changes
+#                           R4_C13_B, R4_C15_A, R4_C16_A), each with its own oracle and storage_format
 set -u
 cd "$(dirname "$0")"
 mkdir -p target/seedtest
-: > target/seedtest/results.txt
+OUT="target/seedtest/results${TABLE_SEL:+-$TABLE_SEL}.txt"
+: > "$OUT"
 first=1
 run() { # run <seed> <oracle> <profiles...>
   if [ $first -eq 1 ]; then export SNAPSHOT=1; first=0; else export SNAPSHOT=0; fi
-  ./seedtest.sh "$@" | tee -a target/seedtest/results.txt
+  ./seedtest.sh "$@" | tee -a "$OUT"
 }
 TABLE="
 C02_A settlement match fees migration
@@ -53,6 +58,37 @@ C17_B attributes match default
 R2_C17_A attributes match auth default
 R2_C17_B attributes match fees
 "
+R34="
+R4_C13_B instantiate_coherence instantiate
+R4_C13_B storage_format instantiate migration config
+R4_C15_A migration migration
+R4_C15_A storage_format migration
+R4_C16_A queries migration
+R4_C16_A storage_format migration
+R4_C17_A attributes migration
+R4_C17_A storage_format migration
+R4_C13_A instantiate_coherence instantiate
+R4_C14_A migration migration
+R4_C14_B migration migration
+R4_C15_B migration migration
+R4_C15_B storage_format migration
+R4_C16_B queries match migration
+R4_C16_B storage_format match migration
+R4_C17_B attributes match
+R3_C13_A instantiate_coherence instantiate
+R3_C13_B instantiate_coherence instantiate
+R3_C14_A migration migration
+R3_C14_B migration migration
+R3_C15_A migration migration
+R3_C15_B migration migration
+R3_C15_B storage_format migration
+R3_C16_A queries migration
+R3_C16_A storage_format migration
+R3_C16_B queries match config
+R3_C17_A attributes match
+R3_C17_B attributes match
+"
+if [ "${TABLE_SEL:-}" = "r34" ]; then TABLE="$R34"; fi
 if [ $# -gt 0 ]; then TABLE=$(echo "$TABLE" | grep -E "$1"); fi
 echo "$TABLE" | while read -r line; do
   [ -z "$line" ] && continue
